@@ -6,6 +6,7 @@ import (
 	"io"
 	"os"
 	path2 "path"
+	"reflect"
 	"strconv"
 	"strings"
 
@@ -109,6 +110,55 @@ func decodeTOML(d *toml.Decoder, v interface{}) (err error) {
 	return d.Decode(v)
 }
 
+// checkFieldSpelling walks the document, decoded into plain maps, next to the structure it is meant for and reports a key
+// that is not spelled exactly like the field it stands for. (Keys of maps - key names, axis names - are data, not fields.)
+func checkFieldSpelling(doc interface{}, t reflect.Type, path string) error {
+	for t.Kind() == reflect.Ptr {
+		t = t.Elem()
+	}
+	switch t.Kind() {
+	case reflect.Struct:
+		table, ok := doc.(map[string]interface{})
+		if !ok {
+			return nil
+		}
+		fields := make(map[string]reflect.Type, t.NumField())
+		for i := 0; i < t.NumField(); i++ {
+			name := strings.Split(t.Field(i).Tag.Get("toml"), ",")[0]
+			if name == "" {
+				name = t.Field(i).Name
+			}
+			fields[name] = t.Field(i).Type
+		}
+		for key, value := range table {
+			fieldType, ok := fields[key]
+			if !ok {
+				return fmt.Errorf("unknown field %s%s (field names are case-sensitive)", path, key)
+			}
+			if err := checkFieldSpelling(value, fieldType, path+key+"."); err != nil {
+				return err
+			}
+		}
+	case reflect.Slice:
+		if items, ok := doc.([]interface{}); ok {
+			for _, item := range items {
+				if err := checkFieldSpelling(item, t.Elem(), path); err != nil {
+					return err
+				}
+			}
+		}
+	case reflect.Map:
+		if table, ok := doc.(map[string]interface{}); ok {
+			for key, value := range table {
+				if err := checkFieldSpelling(value, t.Elem(), path+key+"."); err != nil {
+					return err
+				}
+			}
+		}
+	}
+	return nil
+}
+
 func ParseData(data []byte) (Config, error) {
 	cfg := TOMLDeviceConfig{}
 
@@ -117,6 +167,15 @@ func ParseData(data []byte) (Config, error) {
 
 	err := decodeTOML(d, &cfg)
 	if err != nil {
+		return Config{}, fmt.Errorf("parsing failed: %w", err)
+	}
+
+	// the decoder matches field names without regard to letter case: "VELOCITY" would pass as "velocity" (and override it)
+	var document map[string]interface{}
+	if err := decodeTOML(toml.NewDecoder(bytes.NewReader(data)), &document); err != nil {
+		return Config{}, fmt.Errorf("parsing failed: %w", err)
+	}
+	if err := checkFieldSpelling(document, reflect.TypeOf(cfg), ""); err != nil {
 		return Config{}, fmt.Errorf("parsing failed: %w", err)
 	}
 
